@@ -430,6 +430,7 @@ func (p *Printer) appendTree(b []byte, n *node, offset, closes int) []byte {
 			off += n.elements[0].size + 1
 		}
 		if len(spaces)-1 < off {
+			VerifPoint("printer.spaces")
 			spaces = append(spaces, bytes.Repeat([]byte{' '}, off-len(spaces)+1)...)
 		}
 		pos := offset + 1
